@@ -119,8 +119,10 @@ def seg_case(draw, tier="quick"):
             "single_as_cube": draw(st.booleans()),
             # optional tilt carried as metadata: on the incoming wavefront, as a Tilt plane before and/or after the
             # aperture (in output pixels; the same for every segment, so both descriptions must still agree)
+            # ("steer": a Tilt plane with its own surface - a ramp over the whole frame - that was fit_tilt()-ed, i.e. an
+            # element that carries fitted tilt of its own, after the aperture)
             "tilts": draw(st.sampled_from([None, None, None, "wavefront", "before", "after", "wavefront+after",
-                                           "before+after", "after+after"])),
+                                           "before+after", "after+after", "steer", "steer", "after+steer"])),
             "tilt_px": [draw(gen.finite(-2.5, 2.5)), draw(gen.finite(-2.5, 2.5))]}
 
 
@@ -157,6 +159,13 @@ def _propagate(case, masks):
             raise Skip("single_sample_intermediate_field(known)")
     for _ in range(tilts.count("after")):
         w = w * lentil.Tilt(x=-0.5 * ang[0], y=ang[1])
+    if "steer" in tilts:
+        shp = w.shape
+        yy, xx = np.mgrid[0:shp[0], 0:shp[1]]
+        dxp = cm.ps_pair(case["dx"])
+        surface = 0.3 * ang[0] * (yy - shp[0] // 2) * dxp[0] - 0.2 * ang[1] * (xx - shp[1] // 2) * dxp[1]
+        w = w * lentil.Tilt(x=0.4 * ang[0], y=-0.3 * ang[1], amplitude=np.ones(shp), opd=surface,
+                            pixelscale=cm.as_ps(case["dx"])).fit_tilt(inplace=False)
     kw = {}
     if case["prop_shape"] is not None:
         kw["prop_shape"] = tuple(case["prop_shape"])
